@@ -279,6 +279,7 @@ func Run(r *ev.Run) {
 	}
 	r.Rule(fmt.Sprintf("(i) json.Unmarshal into Schema of every byte string of length<=%d over the 14-byte alphabet {}[]\":,tn01.-\\xc3 and of the complete single-byte edit neighbourhood (delete/replace/insert at every offset) of %d minimal documents (one per keyword shape); ", maxLen, len(minimalDocs)) +
 		"(ii) Resolve (then Validate, Marshal, CloneSchemas when it succeeds) on Schema graphs: every pair of subschema-bearing fields with a shared child, a 2-cycle, self-cycles, nil children, the same child twice, 300-deep chains, conflicting fields, 23 malformed URIs in every URI-valued field x 10 resolve-option sets (malformed/relative/fragment BaseURI, loader error / wrong document / self-referential / ping-pong universe, ValidateDefaults with malformed default bytes); " +
+		"(v) three-document universes root -> d1 -> d2 through a Loader, each document declaring 2020-12 / draft-07 / nothing, d1 and d2 each carrying one of 15 draft-specific keyword shapes, 4 root forms: Resolve, then Validate and ApplyDefaults on 6 instances; " +
 		"(iii) Validate and ApplyDefaults on every (schema, value, representation) of C08's space, plus ApplyDefaults on typed map targets with defaults of matching and of wrong JSON type; (iv) For/ForType on every G-type type incl. recursive and unsupported ones x IgnoreInvalidTypes x TypeSchemas {nil, shared, cyclic}. " +
 		"Oracle: recover() around each call; a fatal runtime error kills the worker process and is attributed by the parent through the mmap journal; 120 s watchdog per call. Non-trivial = every call (distinct by construction)")
 	r.Assume("contract violations are not inputs: ApplyDefaults with a non-pointer / struct target, ForType(nil), cyclic instances, a Loader returning (nil, nil)")
@@ -474,6 +475,67 @@ func Run(r *ev.Run) {
 	})
 	_ = cyc
 	_ = ref.Null
+
+	// (v) documents of different drafts in one universe
+	mixedDrafts(r)
+}
+
+// mixedDrafts: root -> d1 -> d2 through a Loader, every document declaring 2020-12, draft-07 or
+// nothing, d1 and d2 carrying one draft-specific keyword shape each. No edge leads back, so
+// every evaluation descends or terminates.
+func mixedDrafts(r *ev.Run) {
+	drafts := []string{``, `"$schema":"https://json-schema.org/draft/2020-12/schema",`, `"$schema":"http://json-schema.org/draft-07/schema#",`}
+	frags := []string{
+		// @ is the document's own anchor name (a in d1, b in d2): a dynamic reference never
+		// leads back to an enclosing document, which would recurse without descending
+		`"$dynamicRef":"#@","$defs":{"m":{"$dynamicAnchor":"@","type":"object"}}`,
+		`"$dynamicRef":"#@","definitions":{"m":{"$anchor":"@","type":"array"}}`,
+		`"$dynamicAnchor":"@","properties":{"a":{"$dynamicRef":"#@"}}`,
+		`"items":[{"type":"integer"}],"additionalItems":false`,
+		`"prefixItems":[{"type":"integer"}],"items":false`,
+		`"dependencies":{"a":["b"],"b":{"required":["c"]}}`,
+		`"dependentSchemas":{"a":{"required":["b"]}},"dependentRequired":{"b":["c"]}`,
+		`"$ref":"#/definitions/m","definitions":{"m":{"type":"object"}},"maxProperties":0`,
+		`"$ref":"#/$defs/m","$defs":{"m":{"type":"object"}},"maxProperties":0`,
+		`"unevaluatedProperties":false,"properties":{"a":true},"unevaluatedItems":false`,
+		`"contains":{"type":"integer"},"minContains":0,"maxContains":1`,
+		`"$recursiveRef":"#","$recursiveAnchor":true`,
+		`"$id":"http://h/other.json","$anchor":"x","properties":{"a":{"$ref":"#x"}},"default":{"a":1}`,
+		`"$id":"#frag","properties":{"a":{"$ref":"#frag"}}`,
+		`"if":{"required":["a"]},"then":{"properties":{"a":{"default":[1]}}},"type":["object","array"]`,
+	}
+	roots := []string{`"$ref":"d1.json"`, `"allOf":[{"$ref":"d1.json"}],"properties":{"a":{"$ref":"d1.json"}}`, `"$dynamicRef":"d1.json#a","$defs":{"m":{"$dynamicAnchor":"a"}}`, `"items":{"$ref":"d1.json"},"additionalProperties":{"$ref":"d1.json"}`}
+	insts := []func() any{
+		func() any { return map[string]any{} }, func() any { return map[string]any{"a": map[string]any{"a": 1.0}, "b": 1.0} }, func() any { return []any{1.0, "x"} },
+		func() any { return []any{map[string]any{"a": []any{}}} }, func() any { return 1.0 }, func() any { return map[string]any{"a": []any{1.0, 1.0}} },
+	}
+	n := len(drafts) * len(drafts) * len(drafts) * len(frags) * len(frags) * len(roots)
+	r.Set("mixed_draft_universes", n)
+	par.For(n, r.Expired, func(i int, j par.Journal) {
+		k := i
+		pick := func(m int) int { x := k % m; k /= m; return x }
+		ro, f2, f1, d2, d1, d0 := pick(len(roots)), pick(len(frags)), pick(len(frags)), pick(len(drafts)), pick(len(drafts)), pick(len(drafts))
+		root := `{` + drafts[d0] + roots[ro] + `}`
+		doc1 := `{` + drafts[d1] + `"anyOf":[{"$ref":"d2.json"},true],` + strings.ReplaceAll(frags[f1], "@", "a") + `}`
+		doc2 := `{` + drafts[d2] + strings.ReplaceAll(frags[f2], "@", "b") + `}`
+		call(r, j, "Mixed(root "+root+", d1 "+doc1+", d2 "+doc2+")", func() {
+			ml := &drive.MapLoader{Docs: map[string]string{"http://h/d1.json": doc1, "http://h/d2.json": doc2}}
+			var s jsonschema.Schema
+			if err := json.Unmarshal([]byte(root), &s); err != nil {
+				return
+			}
+			rs, err := s.Resolve(&jsonschema.ResolveOptions{BaseURI: "http://h/root.json", Loader: ml.Load, ValidateDefaults: i%2 == 0})
+			if err != nil {
+				return
+			}
+			for _, mk := range insts {
+				rs.Validate(mk())
+				x := mk()
+				rs.ApplyDefaults(&x)
+			}
+		})
+		r.NontrivialN(1)
+	})
 }
 
 func deepCopy(v reflect.Value) reflect.Value {
